@@ -85,6 +85,7 @@ def h_burst(ctx, sver, dver, period):
         # counter: with nobody muted it decreases by one exactly when the burst is suppressed
         after = dst.burst_drop_amount
         ctx.check('counter:unmuted', implies(bnot(muted), eq(after, ite(drop_hit, amount - 1, amount))))
+        ctx.check('counter:muted-bursts-do-not-consume-the-drop-budget', implies(muted, eq(after, amount)))     # they are suppressed anyway; the next n deliverable bursts are dropped
         ctx.check('counter:never-negative-never-grows', band(after >= 0, after <= amount))
         ctx.check('period-unchanged', dst.burst_drop_period == period)
 
